@@ -519,12 +519,20 @@ func TestC10Parallel(t *testing.T) {
 				}
 			}(w)
 		}
+		// the first two readers always use the union filter (its window needs commits on ANOTHER block than
+		// the one the reader is latched on, so it gets more tries), the others rotate through all styles
+		styleOf := func(rd int) int {
+			if rd < 2 {
+				return c10UnionFilter
+			}
+			return rd % nstyles
+		}
 		maxVersions := int64(0)
 		for rd := 0; rd < readers; rd++ {
 			wg.Add(1)
 			go func(rd int) {
 				defer wg.Done()
-				defer crashed("a " + c10StyleNames[rd%nstyles] + " reader")
+				defer crashed("a " + c10StyleNames[styleOf(rd)] + " reader")
 				obs := &c10Obs{Versions: map[uint32]map[int]bool{}, WantRows: len(rows)}
 				for {
 					select {
@@ -537,11 +545,11 @@ func TestC10Parallel(t *testing.T) {
 						return
 					default:
 					}
-					c10Read(c, rd%nstyles, rows, obs)
+					c10Read(c, styleOf(rd), rows, obs)
 					if obs.Bad != "" {
 						mu.Lock()
 						if bad == "" {
-							bad = c10StyleNames[rd%nstyles] + " reader: " + obs.Bad
+							bad = c10StyleNames[styleOf(rd)] + " reader: " + obs.Bad
 						}
 						mu.Unlock()
 						return
